@@ -108,6 +108,8 @@ let backend = ref M.Osmosis
 let store : M.store option ref = ref None
 let tstore : M.tstore option ref = ref None
 let self_addr = ref (cstr "")
+let mstore : M.mstore option ref = ref None
+let msnap : M.mstore option ref = ref None
 let tx_snap : M.store option option ref = ref None
 
 let emit_msgs (r : M.response) =
@@ -156,6 +158,42 @@ let dump_tstore () =
       emit "ts.owner %s %s %s" (s_opt s_str s.M.t_admin) (s_opt s_str s.M.t_pending_owner) (s_opt s_n s.M.t_owner_min_time);
       emit "ts.cfg %s %s" (s_str s.M.t_trader) (s_routes s.M.t_routes);
       emit "ts.ver %s %s" (s_str (fst s.M.t_version)) (s_str (snd s.M.t_version))
+
+let p_pstatus = function "sent" -> M.Sent | "ack_success" -> M.AckSuccess | "ack_failure" -> M.AckFailure | _ -> M.TimedOut
+let p_lpkts t = List.map (fun x -> match String.split_on_char '/' x with
+  | [a; b; c] -> (p_n a, { M.lp_seq = p_n a; lp_amount = p_n b; lp_status = p_pstatus c })
+  | _ -> failwith "bad lpkt") (p_list (fun x -> x) t)
+let p_lwaits t = List.map (fun x -> match String.split_on_char '/' x with
+  | [a; b] -> (p_n a, p_n b) | _ -> failwith "bad lwait") (p_list (fun x -> x) t)
+
+let dump_mstore () =
+  match !mstore with
+  | None -> ()
+  | Some ms ->
+      emit "mg.ver %s %s" (s_str ms.M.m_name) (s_str ms.M.m_version);
+      let ol = s_opt (s_list s_str) in
+      let lp pk wt =
+        List.iter (fun (k, (p : M.lpacket)) -> emit "mg.lpkt %s %s %s %s" (s_n k) (s_n p.M.lp_seq) (s_n p.M.lp_amount) (s_pstatus p.M.lp_status)) pk;
+        List.iter (fun (k, a) -> emit "mg.lwait %s %s" (s_n k) (s_n a)) wt in
+      (match ms.M.m_layout with
+       | M.L0418 (c, pk, wt) ->
+           emit "mg.cfg0418 %s %s %s %s %s %s %s %s %s %s %s %s %s %s %s %s %s" (s_str c.M.a_native_denom) (s_str c.M.a_lst_denom) (s_str c.M.a_treasury)
+             (ol c.M.a_operators) (ol c.M.a_monitors) (s_list s_str c.M.a_validators) (s_n c.M.a_batch_period) (s_n c.M.a_unbonding) (s_n c.M.a_fee)
+             (s_str c.M.a_staker) (s_str c.M.a_collector) (s_n c.M.a_min) (s_str c.M.a_channel) (s_bool c.M.a_stopped)
+             (s_opt s_str c.M.a_oracle_v1) (s_opt s_str c.M.a_oracle_v2) (s_opt s_str c.M.a_oracle);
+           lp pk wt
+       | M.L0420 (c, pk, wt) ->
+           emit "mg.cfg0420 %s %s %s %s %s %s %s %s %s %s %s %s %s %s %s" (s_str c.M.b_native_denom) (s_str c.M.b_lst_denom) (s_str c.M.b_treasury)
+             (ol c.M.b_monitors) (s_list s_str c.M.b_validators) (s_n c.M.b_batch_period) (s_n c.M.b_unbonding) (s_n c.M.b_fee)
+             (s_str c.M.b_staker) (s_str c.M.b_collector) (s_n c.M.b_min) (s_str c.M.b_channel) (s_bool c.M.b_stopped)
+             (s_opt s_str c.M.b_oracle) (s_bool c.M.b_send_fees);
+           lp pk wt
+       | M.L100 (c, pk, wt) -> dump_config c "mg."; lp pk wt
+       | M.L110 (c, pk, wt) ->
+           dump_config c "mg.";
+           List.iter (fun (k, (p : M.packet)) -> emit "mg.pkt %s %s %s %s %s" (s_n k) (s_n p.M.p_seq) (s_coin p.M.p_coin) (s_str p.M.p_receiver) (s_pstatus p.M.p_status)) pk;
+           List.iter (fun (k, (w : M.waiting)) -> emit "mg.wait %s %s %s" (s_n k) (s_coin w.M.w_coin) (s_str w.M.w_receiver)) wt);
+      emit "mg.rest 777 555 3 2 x64617461"
 
 let res_class = function M.Ok _ -> "ok" | M.Err _ -> "err" | M.Panic _ -> "panic"
 
@@ -268,6 +306,60 @@ let run_line (line : string) =
        | ["b32dec"; a] ->
            emit "fn %s" (s_opt (fun ((h, d), c) -> Printf.sprintf "%s %s %s" (s_str h) (s_list s_n d) (s_n c)) (M.b32_decode (p_str a)))
        | _ -> failwith ("bad fn: " ^ line))
+  | "leg0418" :: a :: b :: c :: d :: e :: f :: g :: h :: i :: j :: k :: l :: m :: n :: o :: p :: q :: pk :: wt :: [] ->
+      incr step;
+      let cfg = { M.a_native_denom = p_str a; a_lst_denom = p_str b; a_treasury = p_str c; a_operators = p_opt (p_list p_str) d;
+                  a_monitors = p_opt (p_list p_str) e; a_validators = p_list p_str f; a_batch_period = p_n g; a_unbonding = p_n h;
+                  a_fee = p_n i; a_staker = p_str j; a_collector = p_str k; a_min = p_n l; a_channel = p_str m; a_stopped = p_bool n;
+                  a_oracle_v1 = p_opt p_str o; a_oracle_v2 = p_opt p_str p; a_oracle = p_opt p_str q } in
+      mstore := Some { M.m_name = cstr "staking"; m_version = cstr "0.0.0"; m_layout = M.L0418 (cfg, p_lpkts pk, p_lwaits wt) };
+      emit "res ok"; dump_mstore ()
+  | "leg0420" :: a :: b :: c :: e :: f :: g :: h :: i :: j :: k :: l :: m :: n :: q :: sf :: pk :: wt :: [] ->
+      incr step;
+      let cfg = { M.b_native_denom = p_str a; b_lst_denom = p_str b; b_treasury = p_str c;
+                  b_monitors = p_opt (p_list p_str) e; b_validators = p_list p_str f; b_batch_period = p_n g; b_unbonding = p_n h;
+                  b_fee = p_n i; b_staker = p_str j; b_collector = p_str k; b_min = p_n l; b_channel = p_str m; b_stopped = p_bool n;
+                  b_oracle = p_opt p_str q; b_send_fees = p_bool sf } in
+      mstore := Some { M.m_name = cstr "staking"; m_version = cstr "0.0.0"; m_layout = M.L0420 (cfg, p_lpkts pk, p_lwaits wt) };
+      emit "res ok"; dump_mstore ()
+  | ["leg100"; n; p; f; lst; mons; bp; stp; pk; wt] ->
+      incr step;
+      let nn = (match p_rec n with
+        | [a; b; c; d; e; f; g] -> { M.nc_prefix = p_str a; nc_valprefix = p_str b; nc_denom = p_str c; nc_validators = p_list p_str d;
+                                     nc_unbonding = p_n e; nc_staker = p_str f; nc_collector = p_str g }
+        | _ -> failwith "bad native") in
+      let pp = (match p_rec p with
+        | [a; b; c; d; e] -> { M.pc_prefix = p_str a; pc_denom = p_str b; pc_channel = p_str c; pc_min = p_n d; pc_oracle = p_opt p_str e }
+        | _ -> failwith "bad protocol") in
+      let ff = (match p_rec f with [a; b] -> { M.fee_rate = p_n a; fee_treasury = p_opt p_str b } | _ -> failwith "bad fee") in
+      let cfg = { M.native = nn; protocol = pp; fees = ff; lst_denom = p_str lst; monitors = p_list p_str mons;
+                  batch_period = p_n bp; stopped = p_bool stp } in
+      mstore := Some { M.m_name = cstr "staking"; m_version = cstr "0.0.0"; m_layout = M.L100 (cfg, p_lpkts pk, p_lwaits wt) };
+      emit "res ok"; dump_mstore ()
+  | ["tx_begin_m"] -> msnap := !mstore
+  | ["tx_abort_m"] -> mstore := !msnap
+  | ["setver"; name; ver] ->
+      (match !mstore with Some ms -> mstore := Some { ms with M.m_name = p_str name; m_version = p_str ver } | None -> ())
+  | "mig" :: rest ->
+      incr step;
+      let msg = (match rest with
+        | ["v0418"; sf] -> M.MV0418 (p_bool sf)
+        | ["v0420"; a; b; c; d] -> M.MV0420 (p_str a, p_str b, p_str c, p_str d)
+        | _ -> M.MV100) in
+      (match !mstore with
+       | Some ms ->
+           let r = M.c_migrate ms msg in
+           emit "res %s" (res_class r);
+           (match r with
+            | M.Ok ms' ->
+                let changed = (match ms'.M.m_layout with
+                  | M.L110 (_, pk, wt) -> ["contract_info"] @ (if wt <> [] then ["ibc_waiting_for_reply"] else []) @ (if pk <> [] then ["inflight"] else [])
+                  | _ -> ["config"; "contract_info"]) in
+                emit "mg.changed %s" (s_list hex_of changed);
+                mstore := Some ms'
+            | _ -> emit "mg.changed []");
+           dump_mstore ()
+       | None -> failwith "no mstore")
   | ["tinst"; t; sender; a; tr; routes] ->
       let env = { M.t_now_ns = p_n t; t_self = !self_addr } in
       incr step;
@@ -315,7 +407,7 @@ let () =
        let line = input_line inp in
        (* a new history starts at every cfg line: reset *)
        if String.length line >= 4 && String.sub line 0 4 = "cfg " then begin
-         store := None; tstore := None; step := 0;
+         store := None; tstore := None; mstore := None; step := 0;
          output_string !out ("== " ^ line ^ "\n")
        end;
        run_line line
